@@ -1,0 +1,50 @@
+//go:build verif
+
+package comp
+
+// Verification-only accessors and the snapshot type shared by the multi-core
+// variants (build tag "verif"). Nothing here is used by the simulator itself.
+
+// VerifCounters returns the read and write counters of the semaphore.
+func (s *Sem) VerifCounters() (read, write int) { return s.read, s.write }
+
+// VerifLine is the coherence-relevant state of one L1-sized line address.
+type VerifLine struct {
+	Base int32 `json:"base"`
+	// St is the protocol state per core: 0 invalid, 1 shared, 2 modified.
+	St []int `json:"st"`
+	// Cnt is, per core, the number of lines of its L1 that cover Base.
+	Cnt []int `json:"cnt"`
+	// Hash is, per core, a 31-bit hash of the bytes of its first copy (0 if none).
+	Hash []int `json:"hash"`
+	// Misaligned is, per core, true when a covering line is not size-aligned.
+	Misaligned []bool `json:"misaligned"`
+	// Next is the hash of the same bytes in the next level (L3 if resident there, else memory).
+	Next int `json:"next"`
+	// SemR and SemW are the per-line lock counters.
+	SemR int `json:"semr"`
+	SemW int `json:"semw"`
+	// Busy is, per core, true while a read or write request of that core on
+	// this line has taken its lock and has not completed.
+	Busy []bool `json:"busy"`
+	// Cmd is, per core, the pending snoop command for (core, line): 0 none, 1 evict, 2 write-back.
+	Cmd []int `json:"cmd"`
+}
+
+// VerifSnap is a snapshot of the coherence state at the end of a cycle.
+type VerifSnap struct {
+	Cores int         `json:"cores"`
+	Cap   int         `json:"cap"`
+	L1Len []int       `json:"l1len"`
+	Lines []VerifLine `json:"lines"`
+}
+
+// VerifHash is a 31-bit FNV-1a hash (TLC integers are 32-bit signed).
+func VerifHash(data []int8) int {
+	h := uint32(2166136261)
+	for _, b := range data {
+		h ^= uint32(uint8(b))
+		h *= 16777619
+	}
+	return int(h & 0x7fffffff)
+}
